@@ -418,8 +418,14 @@ def _wellformed_codes():
                 "msig": [["raw", "5121" + "02" + h32 + "21" + "03" + h32 + "52ae"]], "0-21": [["raw", "0015" + h20 + "00"]]}[kind]
     standard = st.builds(std, st.sampled_from(["p2pkh", "p2sh", "p2wpkh", "p2wpkh", "p2wsh", "p2tr", "v1-20", "p2pk", "nulldata", "msig", "0-21"]),
                          st.binary(min_size=20, max_size=20).map(bytes.hex))
+    # pushes whose PUSHDATA length field contains the byte of an opcode the digest cares about (171 = 0xab bytes:
+    # "4c ab ..."; 427: "4d ab 01 ..."), with and without that byte in the payload, between optional real separators
+    def lenbyte(n, fill, s1, s2, tail):
+        return [t for s in s1 for t in s] + [["d", fill * n, "min"]] + [t for s in s2 for t in s] + ([["op", 0xac]] if tail else [])
+    lenbytes = st.builds(lenbyte, st.sampled_from([171, 171, 427, 171 + 512, 0xab00, 0xabab, 170, 172, 0xac, 0xac + 256]),
+                         st.sampled_from(["11", "11", "00", "ab", "ac"]), seps, seps, st.booleans())
     from gen.common import weighted
-    return weighted((6, grammar), (1, standard))
+    return weighted((12, grammar), (2, standard), (1, lenbytes))
 
 
 def _txs():
